@@ -53,7 +53,8 @@ def gen(rng):
     structured = rng.random() < 0.5
     shapes = (world.STRUCT_SHAPES + ["target", "target_kv"]) if structured else (world.UNSTRUCT_SHAPES + ["target_kv"])
     wm = world.gen_world_model(rng, structured=structured, use_cache=rng.choice([True, None, False]), nfiles=rng.randrange(1, 4),
-                               sizes=["tiny", "tiny", "k8"], p_have=0.3, max_stmts=4, min_missing=1, shapes=shapes,
+                               sizes=rng.choice([["tiny", "tiny", "k8"]] * 4 + [["tiny", "k8"], ["tiny", "k64", "k160"], ["tiny", "k160", "k256"]]),
+                               p_have=0.3, max_stmts=4, min_missing=1, shapes=shapes,
                                lock=rng.choice(["absent", "ahead"]))
     tags = set()
     # directives in front of some statements
@@ -117,7 +118,14 @@ def evaluate(wm0, knobs, seed, ctx, max_probes=8):
         d3 = core.read_world(root)
         ch = [p for p, _h in core.diff_worlds(d1, d3, ignore=("tmp",)) if p != "proj/Breadlog.lock"]
         if ch:
-            V("second-edit-changes-files", "a second edit run changed %s" % ch[:3])
+            det = []
+            for p in ch[:3]:
+                b, a = d1.get(p), d3.get(p)
+                ins = core.explain(b["data"], a["data"]) if (b and a and b["t"] == "f" and a["t"] == "f") else None
+                det.append((p, len(b["data"]) if b and b["t"] == "f" else None, len(a["data"]) if a and a["t"] == "f" else None,
+                            [(o, t.decode()) for o, t, _n in ins][:3] if ins is not None else "not-insert-only"))
+            V("second-edit-changes-files", "a second edit run (exit %s) changed %s; first edit exit %s, check exit %s"
+              % (r3.status, det, r1.status, r2.status))
         l1, l3 = d1.get("proj/Breadlog.lock"), d3.get("proj/Breadlog.lock")
         v1 = core.read_lock(l1["data"]) if l1 else None
         v3 = core.read_lock(l3["data"]) if l3 else None
